@@ -4,8 +4,11 @@ import pipeline, tree_common
 
 def run(chk, tier, seed):
     pipeline.run_container(chk, tier, seed, tree_common, owned={"valid"})
+    # "whether it succeeded or failed": operations that fail for lack of memory count too (every allocation of every call fails once)
+    pipeline.run_container(chk, "cross" if tier == "quick" else "quick", seed + 1, tree_common, owned={"valid"}, flagsets=["a"],
+                           threads=4, random_tier="cross")
     chk.cov["exhaustive"] = not chk.infra
     chk.cov["rule"] = ("every transition of the TreeImpl.tla models (shape models over 8-12 keys; iterator models with per-node stamps, parent links, "
                        "epoch counter modulo 4 and client cursor over 3-5 keys) replayed on the real qtreetbl with the real 8-bit epoch counter advanced "
-                       "to its wrap-around by API preludes, plus seeded random histories and walk bursts; decisive oracle for this property: 'valid' "
+                       "to its wrap-around by API preludes, plus seeded random histories and walk bursts; the smaller models again with every allocation inside every call failing once; decisive oracle for this property: 'valid' "
                        "conjunct of TreeTrace.tla; a case is one validated event; distinct = distinct model transitions + half of the random events")
